@@ -24,6 +24,19 @@ ASCII = frozenset(range(128))
 DIGITS = frozenset(range(0x30, 0x3a))
 
 
+STD_CODECS = {'ascii', 'us-ascii', 'utf-8', 'utf8', 'latin-1', 'latin1',
+              'iso-8859-1', 'utf-16', 'utf-16-be', 'utf-16-le', 'utf-7'}
+
+
+def _uni(encoding: bool, enc) -> str:
+    """str->bytes raises UnicodeEncodeError, bytes->str UnicodeDecodeError
+    for the standard codecs; anything else (idna, client-chosen charset)
+    only promises UnicodeError."""
+    if isinstance(enc, str) and enc.lower() in STD_CODECS or enc is None:
+        return 'UnicodeEncodeError' if encoding else 'UnicodeDecodeError'
+    return 'UnicodeError'
+
+
 @dataclass(frozen=True)
 class Esc:
     exc: str
@@ -172,7 +185,7 @@ class Escapes:
                                                           'latin1',
                                                           'iso-8859-1'):
                     continue
-                out.append(('UnicodeError', c, f'.{nm}({enc!r})'))
+                out.append((_uni(nm == 'encode', enc), c, f'.{nm}({enc!r})'))
             elif isinstance(fn, ast.Name) and nm in ('str', 'bytes') and \
                     len(c.args) >= 2:
                 errs = sarg(2, 'errors')
@@ -186,7 +199,8 @@ class Escapes:
                     continue
                 if nm == 'str' and str(enc).lower() in ('latin-1', 'latin1'):
                     continue
-                out.append(('UnicodeError', c, f'{nm}(x, {enc!r})'))
+                out.append((_uni(nm == 'bytes', enc), c,
+                            f'{nm}(x, {enc!r})'))
             elif isinstance(fn, ast.Name) and nm in ('int', 'float') and \
                     len(c.args) >= 1:
                 a = c.args[0]
